@@ -570,7 +570,6 @@ func boundedCounter(info *types.Info, loop *ast.ForStmt) (types.Object, bool) {
 	return o, down
 }
 
-
 // nonDecreasingCall: e is a call F(…) whose result number ri is, on every
 // return that does not report an error, at least the value of the argument
 // that carries the counter v (v itself or v plus a non-negative constant).
